@@ -765,7 +765,12 @@ class TestCase(unittest.TestCase):
                 reraise(*exc_info)
         else:
             self.addCleanup(fixture.cleanUp)
-            self.addCleanup(gather_details, fixture.getDetails(), self.getDetails())
+            # Ask the fixture for its details when the cleanup runs, not now:
+            # getDetails() may hand out a copy, which would miss every detail
+            # the fixture gains while the test uses it.
+            self.addCleanup(
+                lambda: gather_details(fixture.getDetails(), self.getDetails())
+            )
             return fixture
 
     def setUp(self):
